@@ -98,3 +98,7 @@ def stats_features(rng):
 def stats_stream(rng, feats):
     ev = evgen.contract_stream(rng, feats, fail_bias=rng.choice([0.3, 0.6, 1.0]), drop_tail=True)
     return ev
+
+
+def panic_result(case):
+    return dict(calls=[], writes=[], stats=[0] * 6, failed=False, stats_seq=[], extra_seq=[])
